@@ -10,6 +10,8 @@ class Deadlock(Exception):
 
 
 class VSched:
+    wall_hits = 0        # steps that ran into the wall-clock limit in this process (generous until it really happens twice)
+
     def __init__(self, codes):
         self.codes = set(codes)
         self.now = 0.0
@@ -100,7 +102,8 @@ class VSched:
             self.cur = t
             sched.append(t)
             self.sem[t].release()
-            if not self.main.acquire(timeout=10):
+            if not self.main.acquire(timeout=(40 if VSched.wall_hits < 2 else 5)):
+                VSched.wall_hits += 1
                 raise Deadlock("thread %r did not yield (real blocking call?) at %r" % (t, self.pos.get(t)))
         raise Deadlock("step budget exceeded")
 
